@@ -165,28 +165,59 @@ def _pid_of(arr: np.ndarray) -> int:
     return int(x)
 
 
-def canon_payload(v):
+def canon_payload(v, pid_of=None):
     from spox._value_prop import PropValue
 
+    pid_of = pid_of or _pid_of
     if v is None:
         return {"p": "none"}
     if isinstance(v, np.ndarray):
-        return {"p": "arr", "dt": arr_code(v), "shape": list(v.shape), "pid": _pid_of(v)}
+        return {"p": "arr", "dt": arr_code(v), "shape": list(v.shape), "pid": pid_of(v)}
     if isinstance(v, list):
-        return {"p": "list", "xs": [canon_pv(x) for x in v]}
+        return {"p": "list", "xs": [canon_pv(x, pid_of) for x in v]}
     if isinstance(v, PropValue):
-        return {"p": "some", "v": canon_pv(v)}
+        return {"p": "some", "v": canon_pv(v, pid_of)}
     return {"p": "garbage", "repr": repr(v)[:40]}
 
 
-def canon_pv(pv):
+def canon_pv(pv, pid_of=None):
     from spox._value_prop import PropValue
 
     if pv is None:
         return None
     if not isinstance(pv, PropValue):
         return {"garbage": repr(pv)[:40]}
-    return {"ty": canon_type(pv.type), "val": canon_payload(pv.value)}
+    return {"ty": canon_type(pv.type), "val": canon_payload(pv.value, pid_of)}
+
+
+class PidRegistry:
+    """Content -> small id, insensitive to the representation changes spox makes on purpose
+    (alias dtype -> sized dtype, object array of str -> str array)."""
+
+    def __init__(self):
+        self.ids: dict = {}
+
+    def __call__(self, arr) -> int:
+        a = np.asarray(arr)
+        key = tuple(str(x) for x in a.reshape(-1))
+        return self.ids.setdefault(key, len(self.ids) + 1)
+
+
+def to_ref_json(obj, pid_of) -> dict:
+    """A raw object a session returned -> the model's RefVal."""
+    if obj is None:
+        return {"r": "none"}
+    if isinstance(obj, np.ndarray):
+        return {"r": "arr", "dt": arr_code(obj), "shape": list(obj.shape), "pid": pid_of(obj)}
+    if isinstance(obj, list):
+        return {"r": "list", "xs": [to_ref_json(x, pid_of) for x in obj]}
+    if isinstance(obj, (bool, int, float, str, np.generic)):
+        return {"r": "scalar", "dt": arr_code(np.array(obj)), "pid": pid_of(np.array(obj))}
+    try:
+        np.array(obj)
+    except ValueError:
+        return {"r": "ragged"}
+    return {"r": "opaque", "pid": pid_of(np.array(obj))}
 
 
 # --------------------------------------------------------------- independent conformance oracle
@@ -262,6 +293,24 @@ def more_permissive(faulty, free) -> bool:
     return False
 
 
+def single_threaded_ort():
+    """Worker processes run many tiny sessions side by side: one thread each (no semantic effect)."""
+    import onnxruntime
+
+    if getattr(onnxruntime.SessionOptions, "_verif_single", False):
+        return
+    real = onnxruntime.SessionOptions
+
+    def SessionOptions(*a, **k):
+        o = real(*a, **k)
+        o.intra_op_num_threads = 1
+        o.inter_op_num_threads = 1
+        return o
+
+    SessionOptions._verif_single = True  # type: ignore[attr-defined]
+    onnxruntime.SessionOptions = SessionOptions
+
+
 # --------------------------------------------------------------------------- scripted backend
 
 class BackendBoom(Exception):
@@ -299,29 +348,71 @@ class ScriptedBackend:
         self.fn = fn
         self.at = at
         self.calls = 0
+        self.log: list = []  # one entry per backend call: what the session actually did
 
     def _make(self, real_factory, model_arg, as_model):
         outer = self
         self.calls += 1
         script = self.fn(as_model(model_arg))
+        entry: dict = {}
+        self.log.append(entry)
+
+        def record_exc(e):
+            entry.clear()
+            entry["raise"] = {"isExc": isinstance(e, Exception), "id": 0}
+
         if script is None:
-            return real_factory()
+            try:
+                real = real_factory()
+            except BaseException as e:  # noqa: BLE001
+                record_exc(e)
+                raise
+
+            class Recording:
+                def __init__(self):
+                    self.output_names = (list(real.output_names) if hasattr(real, "output_names")
+                                         else [o.name for o in real.get_outputs()])
+                    entry["names"] = list(self.output_names)
+                    entry["objs"] = []
+
+                def get_outputs(self):
+                    return [_Out(n) for n in self.output_names]
+
+                def run(self, names, feed):
+                    try:
+                        res = real.run(names, feed)
+                    except BaseException as e:  # noqa: BLE001
+                        record_exc(e)
+                        raise
+                    entry["objs"] = list(res)
+                    return res
+
+            return Recording()
 
         class Session:
             def __init__(self):
                 if "raise" in script and outer.at == "init":
-                    raise exc_instance(script["raise"]["isExc"], script["raise"]["id"])
+                    e = exc_instance(script["raise"]["isExc"], script["raise"]["id"])
+                    record_exc(e)
+                    raise e
                 self.output_names = list(script.get("names", []))
+                entry["names"] = list(self.output_names)
+                entry["objs"] = []
 
             def get_outputs(self):
                 return [_Out(n) for n in self.output_names]
 
             def run(self, _names, _feed):
                 if "raise" in script:
-                    raise exc_instance(script["raise"]["isExc"], script["raise"]["id"])
+                    e = exc_instance(script["raise"]["isExc"], script["raise"]["id"])
+                    record_exc(e)
+                    raise e
                 if script.get("noniterable"):
+                    record_exc(TypeError())
                     return None
-                return [mk_ref(v) for v in script["vals"]]
+                res = [mk_ref(v) for v in script["vals"]]
+                entry["objs"] = list(res)
+                return res
 
         return Session()
 
